@@ -11,7 +11,7 @@ def sh(cmd, cwd):
 sys.path.insert(0, "/verif/tools")
 from alt import run_alt
 m = json.load(open(d + "/meta.json"))
-for c, v in run_alt(d + "/patch.diff", name, checks).items():
+for c, v in run_alt(d + ("/patch.rebased.diff" if os.path.exists(d + "/patch.rebased.diff") else "/patch.diff"), name, checks).items():
     m.setdefault("checks", {})[c] = v
 m["caught_by"] = sorted(k for k, v in m["checks"].items() if v["exit"] == 1)
 json.dump(m, open(d + "/meta.json", "w"), indent=1)
